@@ -188,6 +188,16 @@ def check_history(seq, res, firsts):
     res.outcome(('history', tuple(firsts[o][0] for o in seq)))
 
 
+def tempfile_mkdtemp():
+    import tempfile
+    return tempfile.mkdtemp(prefix='c15loc_')
+
+
+def shutil_rmtree(d):
+    import shutil
+    shutil.rmtree(d, ignore_errors=True)
+
+
 def long_payloads():
     """One-line payloads whose length, in P8SCII characters or in the UTF-8 bytes of their .p8 spelling, sits on either
     side of 2^15 and 2^16 (the code limit is 65535 characters; a glyph takes 3-7 UTF-8 bytes)."""
@@ -342,6 +352,34 @@ def run_shard(item):
         except Exception as e:
             res.violation('C15|p8file|raise|%s' % type(e).__name__, 'writing/reading a .p8 holding every byte raised %r' % (e,), case)
             return res
+        # the file's text is UTF-8 whatever the process's locale says (an environment answer the harness owns: a child
+        # process with LC_ALL=C, UTF-8 mode and locale coercion off, writes the same cart by name)
+        import os
+        import subprocess
+        import sys
+        dloc = tempfile_mkdtemp()
+        try:
+            script = ('import sys\nsys.path.insert(0, %r)\nsys.path.insert(0, %r)\nfrom lib import carts\nfrom pico8.game import file as f\n'
+                      'code = bytes([45, 45]) + bytes(b for b in range(16, 256) if b not in (10, 13)) + bytes([10])\n'
+                      'f.to_file(carts.make_game({}, version=33, code_lines=[code]), %r)\n' % (
+                          os.environ.get('VERIF_REPO', '/repo'), '/verif', os.path.join(dloc, 'loc.p8')))
+            env = dict(os.environ, LC_ALL='C', LANG='C', PYTHONUTF8='0', PYTHONCOERCECLOCALE='0', PYTHONIOENCODING='')
+            r_ = subprocess.run([sys.executable, '-c', script], env=env, capture_output=True, timeout=120)
+            res.evaluations += 1
+            code_l = b'--' + bytes(b for b in range(16, 256) if b not in (10, 13)) + b'\n'
+            ok_ = False
+            if r_.returncode == 0 and os.path.exists(os.path.join(dloc, 'loc.p8')):
+                try:
+                    txt = open(os.path.join(dloc, 'loc.p8'), 'rb').read()
+                    txt.decode('utf-8')
+                    ok_ = b''.join(P8Formatter.from_file(io.BytesIO(txt), filename='loc.p8').lua.to_lines()) == code_l
+                except Exception:
+                    ok_ = False
+            if not ok_:
+                res.violation('C15|p8file|non-utf8-locale', 'writing a .p8 holding every glyph in a process whose locale encoding is ASCII (LC_ALL=C): %s' % (
+                    'failed: ' + r_.stderr.decode('latin-1')[-200:] if r_.returncode else 'the file is not the UTF-8 text of the cart'), case)
+        finally:
+            shutil_rmtree(dloc)
         # code whose last line is not terminated: every special byte as the last character (the writer supplies the
         # newline; the text before it is converted like any other)
         for b in sp + [0x10, 0x1f, 0x7f, 0x80, 0xff]:
